@@ -26,7 +26,7 @@ template <class G> struct TransformCheck {
       if (g.blocks[b].kind == ref::SO2 || g.blocks[b].kind == ref::SO3) { E(o + m, o + m) = 1; ++m; }
       o += m;
     }
-    ref::Real d = (T.rows() == E.rows() && T.cols() == E.cols()) ? (T - E).cwiseAbs().maxCoeff() / g.lin_scale_M(Mx) : 1;
+    ref::Real d = (T.rows() == E.rows() && T.cols() == E.cols()) ? vf::maxabs((T - E)) / g.lin_scale_M(Mx) : 1;
     if (!(d == d)) d = INFINITY;
     if (!R.judge("transform_is_embedding", d, B::B1, key))
       R.fail("transform_is_embedding", "transform/" + key, d, B::B1, detail + "," + vf::kv("transform", vf::decmat(T)) + "," + vf::kv("documented", vf::decmat(E)) + "}");
@@ -64,11 +64,11 @@ template <class G> void run_c01(vf::Report& R) {
   // Identity() is the identity matrix, exactly
   if (R.mine()) {
     G Id = G::Identity();
-    ref::Real d = (vf::Mof(Id) - I).cwiseAbs().maxCoeff();
+    ref::Real d = vf::maxabs((vf::Mof(Id) - I));
     ++R.states; ++R.transitions;
     if (!R.judge("identity_is_I", d, 1e-300L, "Identity")) R.fail("identity_is_I", "Identity", d, 0, "{" + vf::kv("coeffs", vf::decvec(Id.coeffs())) + "}");
     G Id2; Id2.setIdentity();
-    if (!R.judge("setIdentity_is_I", (vf::Mof(Id2) - I).cwiseAbs().maxCoeff(), 1e-300L, "setIdentity")) R.fail("setIdentity_is_I", "setIdentity", 1, 0, "{}");
+    if (!R.judge("setIdentity_is_I", vf::maxabs((vf::Mof(Id2) - I)), 1e-300L, "setIdentity")) R.fail("setIdentity_is_I", "setIdentity", 1, 0, "{}");
   }
 
   for (size_t i = 0; i < xs.size(); ++i) {
@@ -112,8 +112,8 @@ template <class G> void run_c01(vf::Report& R) {
       P r = X.act(p);
       ++R.transitions;
       ref::Vec e = g.act(Mx, pl);
-      ref::Real sc = std::max((ref::Real)1, std::max(linx, pl.cwiseAbs().maxCoeff()));
-      ref::Real d = (vf::toL(r) - e).cwiseAbs().maxCoeff() / sc;
+      ref::Real sc = std::max((ref::Real)1, std::max(linx, vf::maxabs(pl)));
+      ref::Real d = vf::maxabs((vf::toL(r) - e)) / sc;
       if (!(d == d)) d = INFINITY;
       if (!R.judge("act_is_matrix_action", d, B::B1, key))
         R.fail("act_is_matrix_action", "act/" + key, d, B::B1, dx + "," + vf::kv("p", vf::hexvec(p)) + "," + vf::kv("act", vf::decvec(r)) + "," + vf::kv("ref", vf::decvec(e)) + "}");
